@@ -172,8 +172,9 @@ impl Visitor for BadStringEscapeVisitor {
                                 );
                                 continue;
                             }
+                            // `\x` takes exactly two hexadecimal digits; whatever follows them is ordinary text
                             let second_capture_len = captures[2].len();
-                            if second_capture_len != 2 {
+                            if second_capture_len < 2 {
                                 self.sequences.push(
                                     StringEscapeSequence{
                                         range: (start, start + second_capture_len + 2),
